@@ -561,3 +561,21 @@ class HRG_new_rule:
                         and self._edge_labels[rhs._edges[k].label.name] != rhs._edges[k].label)
                        or (rhs._edges[k].label.name == lhs and not is_the_lhs(rhs._edges[k].label, lhs, rhs))), "Id"))}
     on_raise = {"ValueError": lambda self, lhs, rhs: same_tables(self) and same_graph_state(rhs)}
+
+
+# ---- HRGRule.copy and == (C16: copies are equal to and independent of their originals) ------------------------------
+@contract("fggs.fggs.HRGRule.copy")
+class HRGRule_copy:
+    sig = {"self": "HRGRule"}
+    properties = ["C16", "C18"]
+    requires = lambda self: (wf_graph(self.rhs) and not self.lhs.is_terminal
+                             and self.lhs.node_labels == [n.label for n in self.rhs._ext])
+    ensures = {
+        "equal": lambda self, result: (result.lhs == self.lhs and result.rhs._nodes == self.rhs._nodes
+                                       and result.rhs._edges == self.rhs._edges and result.rhs._ext == self.rhs._ext
+                                       and result.rhs._node_labels == self.rhs._node_labels
+                                       and result.rhs._edge_labels == self.rhs._edge_labels),
+        # a new rule object with a new right-hand side graph whose containers are new too
+        "independent": lambda self, result: is_fresh(result) and result.rhs is not self.rhs,
+        "source_untouched": lambda self: same_graph_state(self.rhs),
+    }
